@@ -1,6 +1,551 @@
-//! C05 — not built yet.
-use mcx::{Ctx, Value};
-pub fn run(_ctx: &Ctx, _replay: Option<&Value>) -> i32 {
-    eprintln!("C05: check not built yet");
-    2
+//! C05 — instruction semantics match the instruction reference on every stack state.
+//!
+//! (E) every instruction form x operand tuples over the value alphabet x initial depths, one
+//!     instruction per run, against `refvm` (documented result, documented failure class, documented
+//!     undefined region excluded);
+//! (S) breadth-first search over instruction sequences from a set of initial stacks: each transition
+//!     re-materialises the state on a fresh VM and executes one instruction; the whole sequence is
+//!     also assembled as ONE program and run once; both must agree with each other and with `refvm`;
+//! (L) LIFO family: k pushes of distinct values followed by j drops.
+
+use crate::common::*;
+use crate::refglue::{self, Verdict};
+use mcx::bfs::{self, Model};
+use mcx::{json, Ctx, Tier, Value};
+use rayon::prelude::*;
+use refvm::ast::{op, Prog};
+use refvm::interp::Vm;
+use std::collections::{BTreeMap, BTreeSet};
+use std::sync::Mutex;
+
+const V: [u64; 11] = [0, 1, 2, 1 << 16, 1 << 31, (1 << 32) - 1, 1 << 32, (1 << 32) + 1, 1 << 63, P - 2, P - 1];
+const V1_EXTRA: [u64; 10] = [3, 31, 32, 63, 64, 65, 0x8000_0001, 0xFFFF_0000, 0x0000_FFFF, 0xFFFF_FFFE];
+const V3: [u64; 6] = [0, 1, 2, (1 << 32) - 1, 1 << 32, P - 1];
+const DEPTHS: [usize; 7] = [0, 1, 15, 16, 17, 20, 40];
+
+#[derive(Clone, Debug)]
+struct Form {
+    tok: String,
+    /// number of operand positions on top of the stack that get alphabet values
+    arity: usize,
+    /// advice stack supplied to the run
+    advice: Vec<u64>,
+    /// operand positions restricted to condition values {0,1,2,p-1} (position 0), rest filler
+    cond: bool,
+}
+
+fn form(tok: &str, arity: usize) -> Form {
+    Form { tok: tok.to_string(), arity, advice: vec![], cond: false }
+}
+
+fn forms() -> Vec<Form> {
+    let mut v = vec![];
+    for (t, a) in [
+        ("assert", 1), ("assertz", 1), ("assert_eq", 2), ("assert_eqw", 8), ("add", 2), ("sub", 2), ("mul", 2),
+        ("div", 2), ("neg", 1), ("inv", 1), ("pow2", 1), ("exp", 2), ("ilog2", 1), ("not", 1), ("and", 2), ("or", 2),
+        ("xor", 2), ("eq", 2), ("neq", 2), ("lt", 2), ("lte", 2), ("gt", 2), ("gte", 2), ("is_odd", 1), ("eqw", 8),
+        ("ext2add", 4), ("ext2sub", 4), ("ext2mul", 4), ("ext2div", 4), ("ext2neg", 2), ("ext2inv", 2),
+        ("u32test", 1), ("u32testw", 4), ("u32assert", 1), ("u32assert2", 2), ("u32assertw", 4), ("u32cast", 1),
+        ("u32split", 1), ("u32overflowing_add", 2), ("u32wrapping_add", 2), ("u32overflowing_sub", 2),
+        ("u32wrapping_sub", 2), ("u32overflowing_mul", 2), ("u32wrapping_mul", 2), ("u32div", 2), ("u32mod", 2),
+        ("u32divmod", 2), ("u32overflowing_add3", 3), ("u32wrapping_add3", 3), ("u32overflowing_madd", 3),
+        ("u32wrapping_madd", 3), ("u32and", 2), ("u32or", 2), ("u32xor", 2), ("u32not", 1), ("u32shl", 2),
+        ("u32shr", 2), ("u32rotl", 2), ("u32rotr", 2), ("u32popcnt", 1), ("u32clz", 1), ("u32ctz", 1), ("u32clo", 1),
+        ("u32cto", 1), ("u32lt", 2), ("u32lte", 2), ("u32gt", 2), ("u32gte", 2), ("u32min", 2), ("u32max", 2),
+        ("drop", 0), ("dropw", 0), ("padw", 0), ("dup", 0), ("dupw", 0), ("swap", 0), ("swapw", 0), ("swapdw", 0),
+        ("sdepth", 0), ("clk", 0),
+    ] {
+        v.push(form(t, a));
+    }
+    // immediate forms of field instructions (decimal and hex spelling; p and 2^64-1 are not field elements)
+    // (hex spelling is documented for push only)
+    let felt_imms = ["0", "1", "2", "7", "65536", "4294967295", "4294967296", "18446744069414584320",
+        "18446744069414584321", "18446744073709551615"];
+    let push_imms = ["0", "1", "2", "7", "65536", "4294967295", "4294967296", "18446744069414584320", "0x07", "0x7b", "0xffffffff00000000",
+        "18446744069414584321", "18446744073709551615", "0xffffffff00000001"];
+    for t in ["add", "sub", "mul", "div", "eq", "neq", "exp"] {
+        for i in felt_imms {
+            v.push(form(&format!("{t}.{i}"), 1));
+        }
+    }
+    for n in [0, 1, 2, 8, 31, 32, 63, 64, 65] {
+        v.push(form(&format!("exp.u{n}"), 2));
+    }
+    for t in ["assert", "assertz", "assert_eq", "u32assert", "u32assert2", "assert_eqw", "u32assertw"] {
+        let a = match t {
+            "assert" | "assertz" | "u32assert" => 1,
+            "assert_eq" | "u32assert2" => 2,
+            "u32assertw" => 4,
+            _ => 8,
+        };
+        for c in ["0", "1", "4294967295", "4294967296"] {
+            v.push(form(&format!("{t}.err={c}"), a));
+        }
+    }
+    let u32_imms = ["0", "1", "2", "31", "32", "65536", "2147483648", "4294967295", "4294967296"];
+    for t in ["u32overflowing_add", "u32wrapping_add", "u32overflowing_sub", "u32wrapping_sub", "u32overflowing_mul",
+        "u32wrapping_mul", "u32div", "u32mod", "u32divmod"]
+    {
+        for i in u32_imms {
+            v.push(form(&format!("{t}.{i}"), 1));
+        }
+    }
+    for t in ["u32shl", "u32shr", "u32rotl", "u32rotr"] {
+        for i in ["0", "1", "7", "31", "32"] {
+            v.push(form(&format!("{t}.{i}"), 1));
+        }
+    }
+    // stack manipulation: every index form, plus the first invalid index on each side
+    for n in 0..=16 {
+        v.push(form(&format!("dup.{n}"), 0));
+        v.push(form(&format!("swap.{n}"), 0));
+        v.push(form(&format!("movup.{n}"), 0));
+        v.push(form(&format!("movdn.{n}"), 0));
+    }
+    for n in 0..=4 {
+        v.push(form(&format!("dupw.{n}"), 0));
+        v.push(form(&format!("swapw.{n}"), 0));
+        v.push(form(&format!("movupw.{n}"), 0));
+        v.push(form(&format!("movdnw.{n}"), 0));
+    }
+    for t in ["cswap", "cswapw", "cdrop", "cdropw"] {
+        v.push(Form { tok: t.into(), arity: 1, advice: vec![], cond: true });
+    }
+    // constants
+    for i in push_imms {
+        v.push(form(&format!("push.{i}"), 0));
+    }
+    v.push(form("push.1.2", 0));
+    v.push(form("push.1.2.3.4", 0));
+    v.push(form("push.0x00001234.0x00005678.0x00009012.0x0000abcd", 0));
+    v.push(form("push.0x341200000000000078560000000000001290000000000000cdab000000000000", 0));
+    v.push(form(&format!("push.{}", (1..=16).map(|i| (100 + i).to_string()).collect::<Vec<_>>().join(".")), 0));
+    v.push(form(&format!("push.{}", (1..=17).map(|i| (100 + i).to_string()).collect::<Vec<_>>().join(".")), 0));
+    // advice-consuming instructions (documented order)
+    for n in 0..=17 {
+        v.push(Form { tok: format!("adv_push.{n}"), arity: 0, advice: (1..=20).map(|i| 7000 + i).collect(), cond: false });
+    }
+    v.push(Form { tok: "adv_push.3".into(), arity: 0, advice: vec![7001, 7002], cond: false });
+    v.push(Form { tok: "adv_loadw".into(), arity: 0, advice: vec![7001, 7002, 7003, 7004, 7005], cond: false });
+    v.push(Form { tok: "adv_loadw".into(), arity: 0, advice: vec![7001, 7002, 7003], cond: false });
+    v
+}
+
+fn operand_tuples(f: &Form, tier: Tier) -> Vec<Vec<u64>> {
+    if f.cond {
+        return [0u64, 1, 2, P - 1].iter().map(|c| vec![*c]).collect();
+    }
+    match f.arity {
+        0 => vec![vec![]],
+        1 => V.iter().chain(V1_EXTRA.iter()).map(|x| vec![*x]).collect(),
+        2 => mcx::space::tuples(&V, 2),
+        3 => mcx::space::tuples(&V3, 3),
+        4 => mcx::space::tuples(&V3, 4),
+        8 => match tier {
+            Tier::Quick => mcx::space::tuples(&[0, P - 1], 8),
+            Tier::Thorough => mcx::space::tuples(&[0, 1, P - 1], 8),
+        },
+        n => panic!("no operand alphabet for arity {n}"),
+    }
+}
+
+/// initial stack (top first) of depth `depth` whose top carries the operand tuple; the other
+/// positions carry pairwise distinct filler so that a mis-routed element is visible
+fn make_stack(operands: &[u64], depth: usize) -> Vec<u64> {
+    let mut s: Vec<u64> = operands.iter().cloned().take(depth).collect();
+    for i in s.len()..depth {
+        s.push(1000 + i as u64);
+    }
+    s
+}
+
+struct Case {
+    form: usize,
+    stack: Vec<u64>,
+}
+
+fn run_ref(tok: &str, stack: &[u64], advice: &[u64]) -> (Result<(), refvm::interp::Stop>, Vec<u64>, bool) {
+    let prog = Prog::simple(vec![op(tok)]);
+    let mut vm = Vm::new(&prog, stack, advice, BTreeMap::new());
+    let r = vm.run();
+    (r, vm.stack.clone(), vm.depth_uncertain)
+}
+
+fn run_ref_seq(toks: &[String], stack: &[u64]) -> (Result<(), refvm::interp::Stop>, Vec<u64>, bool) {
+    let prog = Prog::simple(toks.iter().map(|t| op(t)).collect());
+    let mut vm = Vm::new(&prog, stack, &[], BTreeMap::new());
+    let r = vm.run();
+    (r, vm.stack.clone(), vm.depth_uncertain)
+}
+
+fn src_of(toks: &[String]) -> String {
+    format!("begin {} end", toks.join(" "))
+}
+
+fn family(tok: &str) -> String {
+    tok.split('.').next().unwrap().to_string()
+}
+
+fn check_single(ctx: &Ctx, tok: &str, stack: &[u64], advice: &[u64], program: &Result<processor::Program, String>) -> (String, String) {
+    let real = match program {
+        Err(e) => Outcome::AsmErr(e.clone()),
+        Ok(p) => run_program(p, stack, advice),
+    };
+    let (r, ref_stack, uncertain) = run_ref(tok, stack, advice);
+    let verdict = refglue::compare(&real, &r, &ref_stack, !uncertain);
+    if let Outcome::Ok(s) = &real {
+        if s.len() < 16 {
+            ctx.fail(
+                json!({"kind": "depth_below_16", "instr": family(tok)}),
+                format!("{tok} on {stack:?}: final depth {}", s.len()),
+                json!({"kind": "single", "tok": tok, "stack": stack, "advice": advice}),
+            );
+        }
+    }
+    if let Outcome::Panic(p) = &real {
+        ctx.fail(
+            json!({"kind": "panic", "instr": family(tok), "panic": mcx::guard::short_panic(p)}),
+            format!("{tok} on {stack:?}: {}", real.brief()),
+            json!({"kind": "single", "tok": tok, "stack": stack, "advice": advice}),
+        );
+    } else if let Verdict::Mismatch(m) = &verdict {
+        ctx.fail(
+            json!({"kind": "single_step_mismatch", "instr": family(tok), "ref": refglue::ref_class(&r), "real": real.kind()}),
+            format!("{tok} on {stack:?} adv {advice:?}: {m}"),
+            json!({"kind": "single", "tok": tok, "stack": stack, "advice": advice}),
+        );
+    }
+    (refglue::ref_class(&r), format!("{verdict:?}").split('(').next().unwrap().to_string())
+}
+
+// ------------------------------------------------------------------------------------------------
+// (S) sequences
+// ------------------------------------------------------------------------------------------------
+
+fn seq_alphabet() -> Vec<String> {
+    [
+        "add", "sub", "mul", "neg", "inv", "not", "and", "or", "eq", "eq.0", "neq", "lt", "is_odd", "add.1", "mul.2",
+        "push.0", "push.1", "push.2", "push.4294967296", "push.1.2.3.4", "drop", "dropw", "padw", "dup", "dup.7", "dup.15", "dupw.3",
+        "swap", "swap.15", "swapw", "swapw.3", "swapdw", "movup.2", "movup.15", "movdn.2", "movdn.15", "movupw.3", "movdnw.2",
+        "cswap", "cdrop", "cswapw", "u32split", "u32cast", "u32overflowing_add", "u32wrapping_sub", "u32overflowing_mul",
+        "u32divmod", "u32and", "u32xor", "u32not", "u32shl.1", "u32shr", "u32popcnt", "u32lt", "u32min", "u32assert2", "u32test",
+        "sdepth", "assert", "assertz", "ext2mul", "ext2inv", "pow2", "u32overflowing_add3", "u32wrapping_madd",
+    ]
+    .iter()
+    .map(|s| s.to_string())
+    .collect()
+}
+
+fn seq_inits() -> Vec<Vec<u64>> {
+    let distinct = |n: usize| -> Vec<u64> { (0..n).map(|i| 1000 + i as u64).collect() };
+    vec![
+        vec![],
+        vec![1],
+        vec![1, 0, 1, 1, 0],
+        vec![3, 5, 7, 11],
+        vec![0, 0, 1, 2, 3, 4, 5, 6, 7, 8, 9, 10, 11, 12, 13, 14],
+        distinct(16),
+        distinct(17),
+        distinct(20),
+        vec![(1 << 32) - 1, (1 << 32) - 1, 1, 5],
+        vec![P - 1, P - 1, 1 << 32, 1 << 63],
+        vec![1, 1, 1, 1, 1, 1, 1, 1, 1, 1, 1, 1, 1, 1, 1, 1, 1, 1],
+        {
+            let mut v = vec![1, 2];
+            v.extend(distinct(33));
+            v
+        },
+    ]
+}
+
+#[derive(Clone)]
+struct SeqState {
+    stack: Vec<u64>,
+    init: usize,
+    history: Vec<String>,
+    /// the reference lost track of the exact depth somewhere along the first path to this state
+    uncertain: bool,
+}
+
+struct SeqModel<'a> {
+    ctx: &'a Ctx,
+    alphabet: Vec<String>,
+    inits: Vec<Vec<u64>>,
+    programs: BTreeMap<String, processor::Program>,
+    classes: Mutex<BTreeMap<String, u64>>,
+    sdepth_exact: Mutex<u64>,
+}
+
+impl<'a> Model for SeqModel<'a> {
+    type State = SeqState;
+    type Action = String;
+
+    fn init(&self) -> Vec<SeqState> {
+        self.inits
+            .iter()
+            .enumerate()
+            .map(|(i, s)| {
+                let mut stack = s.clone();
+                while stack.len() < 16 {
+                    stack.push(0);
+                }
+                SeqState { stack, init: i, history: vec![], uncertain: false }
+            })
+            .collect()
+    }
+    fn actions(&self, _s: &SeqState) -> Vec<String> {
+        self.alphabet.clone()
+    }
+    fn step(&self, s: &SeqState, a: &String) -> Option<SeqState> {
+        let case = || json!({"kind": "seq", "state": s.stack, "init": self.inits[s.init], "history": s.history, "action": a});
+        // (1) re-materialise the state on a fresh VM, execute one instruction
+        let real = run_program(&self.programs[a], &s.stack, &[]);
+        let (r, ref_stack, unc) = run_ref(a, &s.stack, &[]);
+        let exact = !unc && !(a == "sdepth" && s.uncertain);
+        let v = refglue::compare(&real, &r, &ref_stack, exact);
+        if a == "sdepth" && exact {
+            *self.sdepth_exact.lock().unwrap() += 1;
+        }
+        {
+            let mut c = self.classes.lock().unwrap();
+            *c.entry(format!("{}:{}", refglue::ref_class(&r), real.kind())).or_insert(0) += 1;
+        }
+        if let Verdict::Mismatch(m) = &v {
+            self.ctx.fail(
+                json!({"kind": "seq_step_mismatch", "instr": family(a), "ref": refglue::ref_class(&r), "real": real.kind()}),
+                format!("{a} on {:?}: {m}", s.stack),
+                case(),
+            );
+        }
+        if let Outcome::Panic(p) = &real {
+            self.ctx.fail(
+                json!({"kind": "panic", "instr": family(a), "panic": mcx::guard::short_panic(p)}),
+                format!("{a} on {:?}", s.stack),
+                case(),
+            );
+        }
+        // (2) the whole history as ONE program from the initial state (exercises span batching,
+        // group boundaries, the assembler's peephole forms); must reach the same state
+        let mut hist = s.history.clone();
+        hist.push(a.clone());
+        let whole = run_source(&assembler(), &src_of(&hist), &self.inits[s.init], &[]);
+        let same = match (&real, &whole) {
+            (Outcome::Ok(x), Outcome::Ok(y)) => refglue::strip_trailing_zeros(x) == refglue::strip_trailing_zeros(y),
+            (Outcome::Err(x), Outcome::Err(y)) => err_variant(x) == err_variant(y),
+            (x, y) => x.kind() == y.kind(),
+        };
+        if !same {
+            self.ctx.fail(
+                json!({"kind": "chained_vs_rematerialised", "instr": family(a)}),
+                format!("history {:?} from {:?}: one program gives {}, step-by-step gives {}", hist, self.inits[s.init], whole.brief(), real.brief()),
+                case(),
+            );
+        }
+        // (3) the reference run over the whole history from the initial state
+        let (rr, rs, runc) = run_ref_seq(&hist, &self.inits[s.init]);
+        if let Verdict::Mismatch(m) = refglue::compare(&whole, &rr, &rs, false) {
+            self.ctx.fail(
+                json!({"kind": "seq_whole_mismatch", "instr": family(a), "ref": refglue::ref_class(&rr), "real": whole.kind()}),
+                format!("history {:?} from {:?}: {m}", hist, self.inits[s.init]),
+                case(),
+            );
+        }
+        match real {
+            Outcome::Ok(stack) => Some(SeqState { stack, init: s.init, history: hist, uncertain: s.uncertain || unc || runc }),
+            _ => None,
+        }
+    }
+    fn canon(&self, s: &SeqState) -> Vec<u8> {
+        let mut out = Vec::with_capacity(s.stack.len() * 8);
+        for v in &s.stack {
+            out.extend_from_slice(&v.to_le_bytes());
+        }
+        out
+    }
+}
+
+// ------------------------------------------------------------------------------------------------
+
+fn compile(tok_src: &str) -> Result<processor::Program, String> {
+    match mcx::guard::catch(|| assembler().compile(tok_src)) {
+        Err(p) => panic!("assembler panicked on {tok_src}: {p}"),
+        Ok(Ok(p)) => Ok(p),
+        Ok(Err(e)) => Err(format!("{e}")),
+    }
+}
+
+pub fn run(ctx: &Ctx, replay: Option<&Value>) -> i32 {
+    if let Some(case) = replay {
+        return replay_case(ctx, case);
+    }
+    let forms = forms();
+    // --- (E) single steps -----------------------------------------------------------------------
+    let programs: Vec<Result<processor::Program, String>> =
+        forms.par_iter().map(|f| compile(&src_of(&[f.tok.clone()]))).collect();
+    let mut cases: Vec<Case> = vec![];
+    for (fi, f) in forms.iter().enumerate() {
+        let mut seen = BTreeSet::new();
+        for t in operand_tuples(f, ctx.tier) {
+            for d in DEPTHS {
+                let st = make_stack(&t, d);
+                if seen.insert(st.clone()) {
+                    cases.push(Case { form: fi, stack: st });
+                }
+            }
+        }
+    }
+    let hist: Mutex<BTreeMap<String, u64>> = Mutex::new(BTreeMap::new());
+    let per_form: Mutex<BTreeMap<String, BTreeSet<String>>> = Mutex::new(BTreeMap::new());
+    cases.par_chunks(512).for_each(|chunk| {
+        let mut local: BTreeMap<String, u64> = BTreeMap::new();
+        let mut lf: BTreeMap<String, BTreeSet<String>> = BTreeMap::new();
+        for c in chunk {
+            let f = &forms[c.form];
+            let (rc, vc) = check_single(ctx, &f.tok, &c.stack, &f.advice, &programs[c.form]);
+            *local.entry(format!("{rc}/{vc}")).or_insert(0) += 1;
+            lf.entry(family(&f.tok)).or_default().insert(rc);
+        }
+        let mut h = hist.lock().unwrap();
+        for (k, v) in local {
+            *h.entry(k).or_insert(0) += v;
+        }
+        let mut pf = per_form.lock().unwrap();
+        for (k, v) in lf {
+            pf.entry(k).or_default().extend(v);
+        }
+    });
+    let single_cases = cases.len() as u64;
+    for c in cases.iter().step_by(cases.len() / 4 + 1) {
+        ctx.sample(json!({"kind": "single", "instr": forms[c.form].tok, "stack": c.stack}));
+    }
+
+    // --- (L) LIFO --------------------------------------------------------------------------------
+    let mut lifo = 0u64;
+    let kmax = ctx.tier.pick(24usize, 40usize);
+    let lifo_cases: Vec<(usize, usize, usize)> = (0..=kmax)
+        .flat_map(|k| (0..=k + 2).flat_map(move |j| [0usize, 16, 19].into_iter().map(move |d| (k, j, d))))
+        .collect();
+    lifo_cases.par_iter().for_each(|&(k, j, d)| {
+        let init: Vec<u64> = (0..d).map(|i| 500 + i as u64).collect();
+        let mut toks: Vec<String> = (0..k).map(|i| format!("push.{}", 9000 + i)).collect();
+        toks.extend((0..j).map(|_| "drop".to_string()));
+        if toks.is_empty() {
+            toks.push("push.0".into());
+            toks.push("drop".into());
+        }
+        // expected by the LIFO rule itself (not via refvm): pushes stack up, drops remove from the top,
+        // never below 16
+        let mut exp: Vec<u64> = init.clone();
+        while exp.len() < 16 {
+            exp.push(0);
+        }
+        for i in 0..k {
+            exp.insert(0, 9000 + i as u64);
+        }
+        for _ in 0..j {
+            exp.remove(0);
+            if exp.len() < 16 {
+                exp.push(0);
+            }
+        }
+        let real = run_source(&assembler(), &src_of(&toks), &init, &[]);
+        if real != Outcome::Ok(exp.clone()) {
+            ctx.fail(
+                json!({"kind": "lifo"}),
+                format!("{k} pushes, {j} drops from depth {d}: expected {exp:?} got {}", real.brief()),
+                json!({"kind": "lifo", "k": k, "j": j, "d": d}),
+            );
+        }
+    });
+    lifo += lifo_cases.len() as u64;
+
+    // --- (S) sequences ---------------------------------------------------------------------------
+    let alphabet = seq_alphabet();
+    let seq_programs: BTreeMap<String, processor::Program> = alphabet
+        .iter()
+        .map(|a| (a.clone(), compile(&src_of(&[a.clone()])).expect("sequence alphabet must assemble")))
+        .collect();
+    let model = SeqModel {
+        ctx,
+        alphabet: alphabet.clone(),
+        inits: seq_inits(),
+        programs: seq_programs,
+        classes: Mutex::new(BTreeMap::new()),
+        sdepth_exact: Mutex::new(0),
+    };
+    let depth = ctx.tier.pick(2, 3);
+    let stats = bfs::bfs(&model, depth, ctx.tier.pick(40.0, 900.0), ctx.tier.pick(200_000, 3_000_000));
+    ctx.sample(json!({"kind": "seq", "init": model.inits[3], "example_history": ["push.1.2.3.4", "u32overflowing_add", "movdn.15"]}));
+
+    let h = hist.into_inner().unwrap();
+    let pf = per_form.into_inner().unwrap();
+    let compared: u64 = h.iter().filter(|(k, _)| k.ends_with("/Agree")).map(|(_, v)| *v).sum();
+    let dont_care: u64 = h.iter().filter(|(k, _)| k.ends_with("/DontCare")).map(|(_, v)| *v).sum();
+    let classes_per_family: BTreeMap<String, Vec<String>> = pf.into_iter().map(|(k, v)| (k, v.into_iter().collect())).collect();
+    let distinct_outcome_pairs: usize = classes_per_family.values().map(|v| v.len()).sum();
+    let cov = json!({
+        "states": stats.states,
+        "transitions": stats.transitions,
+        "traces_validated_against_impl": stats.transitions,
+        "bfs": {"depth_completed": stats.depth_completed, "duplicates": stats.duplicates, "terminal_transitions": stats.terminal,
+                "frontier_sizes": stats.frontier_sizes, "cap_hit": stats.cap_hit, "alphabet": alphabet, "initial_states": model.inits.len(),
+                "outcome_classes(ref:real)": *model.classes.lock().unwrap(), "sdepth_compared_exactly": *model.sdepth_exact.lock().unwrap()},
+        "single_step": {"forms": forms.len(), "cases": single_cases, "compared_and_agreeing": compared, "dont_care": dont_care,
+                        "histogram(ref_class/verdict)": h, "value_alphabet": V, "extra_unary_values": V1_EXTRA, "ternary_alphabet": V3, "depths": DEPTHS,
+                        "distinct (instruction family, outcome class) pairs": distinct_outcome_pairs},
+        "outcome_classes_per_instruction_family": classes_per_family,
+        "lifo_cases": lifo,
+        "evaluations": single_cases + lifo + stats.transitions * 2,
+        "exhaustive": stats.cap_hit.is_none(),
+        "bounds": format!("single steps: every form x alphabet tuples x depths; sequences: BFS depth {depth} over {} instructions from {} initial stacks; LIFO k<= {kmax}", alphabet.len(), model.inits.len()),
+    });
+    ctx.finish("model_checking", cov, &[
+        "reference = refvm, written from docs/src/user_docs/assembly; inputs in documented-undefined regions are not compared (counted dont_care)",
+        "ext2mul follows the field definition x^2 = x - 2 (docs/src/design/stack/field_ops.md), the user-doc table abbreviates c1",
+        "the exact depth (trailing zeros beyond position 15) is compared only where it is determined at instruction level; otherwise stacks are compared modulo trailing zeros",
+        "clk is not compared here (C14 compares it with the trace)",
+    ])
+}
+
+fn replay_case(ctx: &Ctx, case: &Value) -> i32 {
+    let u = |v: &Value| -> Vec<u64> { v.as_array().map(|a| a.iter().map(|x| x.as_u64().unwrap()).collect()).unwrap_or_default() };
+    match case["kind"].as_str().unwrap_or("") {
+        "single" => {
+            let tok = case["tok"].as_str().unwrap();
+            let stack = u(&case["stack"]);
+            let advice = u(&case["advice"]);
+            let prog = compile(&src_of(&[tok.to_string()]));
+            let real = match &prog {
+                Err(e) => Outcome::AsmErr(e.clone()),
+                Ok(p) => run_program(p, &stack, &advice),
+            };
+            let (r, rs, unc) = run_ref(tok, &stack, &advice);
+            println!("instruction: {tok}\nstack (top first): {stack:?}\nreal: {}\nreference: {:?} stack {:?} (depth uncertain: {unc})", real.brief(), r, rs);
+            check_single(ctx, tok, &stack, &advice, &prog);
+        }
+        "seq" => {
+            let init = u(&case["init"]);
+            let mut hist: Vec<String> = case["history"].as_array().unwrap().iter().map(|x| x.as_str().unwrap().to_string()).collect();
+            hist.push(case["action"].as_str().unwrap().to_string());
+            let whole = run_source(&assembler(), &src_of(&hist), &init, &[]);
+            let (rr, rs, _) = run_ref_seq(&hist, &init);
+            println!("program: {}\ninit: {init:?}\nreal (one program): {}\nreference: {:?} {:?}", src_of(&hist), whole.brief(), rr, rs);
+            let state = u(&case["state"]);
+            let a = case["action"].as_str().unwrap().to_string();
+            let real = run_source(&assembler(), &src_of(&[a.clone()]), &state, &[]);
+            let (r, rs2, unc) = run_ref(&a, &state, &[]);
+            println!("last step alone: {a} on {state:?}\nreal: {}\nreference: {:?} {:?}", real.brief(), r, rs2);
+            if let Verdict::Mismatch(m) = refglue::compare(&real, &r, &rs2, !unc) {
+                ctx.fail(json!({"kind": "seq_step_mismatch", "instr": family(&a), "ref": refglue::ref_class(&r), "real": real.kind()}), m, case.clone());
+            }
+            if let Verdict::Mismatch(m) = refglue::compare(&whole, &rr, &rs, false) {
+                ctx.fail(json!({"kind": "seq_whole_mismatch", "instr": family(&a), "ref": refglue::ref_class(&rr), "real": whole.kind()}), m, case.clone());
+            }
+        }
+        "lifo" => {
+            println!("lifo case {case}: re-run `./check C05 quick` (the family is tiny)");
+        }
+        k => panic!("unknown replay kind {k}"),
+    }
+    ctx.finish("model_checking", json!({}), &[])
 }
